@@ -18,8 +18,7 @@ def plan(ctx):
     if ctx.quick:
         return [('GF(5)', 3, 1), ('GF(7)', 3, 1), ('GF(7)', 5, 2), ('GF(2^3)', 4, 1), ('GF(3^2)', 3, 1), ('GF(2^2)', 2, 0)]
     return [('GF(5)', 3, 1), ('GF(5)', 4, 1), ('GF(7)', 2, 0), ('GF(7)', 3, 1), ('GF(7)', 5, 2), ('GF(7)', 6, 2), ('GF(11)', 4, 1), ('GF(11)', 7, 3),
-            ('GF(13)', 5, 2), ('GF(13)', 7, 3), ('GF(2^2)', 2, 0), ('GF(2^2)', 3, 1), ('GF(2^3)', 4, 1), ('GF(2^3)', 7, 3), ('GF(3^2)', 3, 1),
-            ('GF(3^2)', 5, 2)]
+            ('GF(13)', 5, 2), ('GF(2^2)', 2, 0), ('GF(2^2)', 3, 1), ('GF(2^3)', 4, 1), ('GF(2^3)', 5, 2), ('GF(3^2)', 3, 1), ('GF(3^2)', 5, 2)]
 
 
 def run(ctx, prop='C12', invariants=('Recombines', 'DegreeT'), trace_invs=('SplitOK', 'RecombineOK'), neg=True):
@@ -29,7 +28,7 @@ def run(ctx, prop='C12', invariants=('Recombines', 'DegreeT'), trace_invs=('Spli
             P, D, mod, modint = FIELDS[fname]
             q = P ** D
             tag = f'{fname}-{m}-{t}'.replace('(', '').replace(')', '').replace('^', 'e')
-            if q ** (t + 1) <= (3000 if ctx.quick else 200000):
+            if q ** (t + 1) <= (3000 if ctx.quick else 5000):
                 cfg = os.path.join(wd, f'mc_{tag}.cfg')
                 tlc.write_cfg(cfg, constants=consts(fname, m, t), invariants=list(invariants))
                 res = tlc.run_tlc('ShamirMC', cfg, workdir=wd, timeout=3000)
@@ -45,7 +44,7 @@ def run(ctx, prop='C12', invariants=('Recombines', 'DegreeT'), trace_invs=('Spli
             variants = [False] + ([True] if have_np() else [])
             for use_np in variants:
                 job = {'what': 'shamir', 'p': P, 'd': D, 'modint': modint, 'm': m, 't': t, 'np': use_np,
-                       'seed': ctx.seed, 'budget': 350 if ctx.quick else 1500, 'multi': 6 if ctx.quick else 20}
+                       'seed': ctx.seed, 'budget': 350 if ctx.quick else 900, 'multi': 6 if ctx.quick else 15}
                 d, err = run_worker(wd, job, tag + ('np' if use_np else ''))
                 if d is None:
                     ctx.violation(f'{prop}:impl-raises:{"np" if use_np else "list"}', {'field': fname, 'm': m, 't': t, 'stderr': err})
